@@ -93,7 +93,18 @@ class RspHandler:
         if crc != crc2:
             raise ValueError(f"Checksum {crc} != {crc2}")
         pkt = pkt[1:-3]
-        return pkt
+        # Restore escaped characters: '}' followed by the character xor 0x20
+        data = []
+        escape = False
+        for c in pkt:
+            if escape:
+                data.append(chr(ord(c) ^ 0x20))
+                escape = False
+            elif c == "}":
+                escape = True
+            else:
+                data.append(c)
+        return "".join(data)
 
 
 def decoder():
